@@ -40,7 +40,7 @@ case_size = common.case_size
 
 def gen_profile(rng, m_max=3):
     n = rng.randint(2, 5)
-    names = G.NAME_FAMILIES["plain"][:n]
+    names, _fam = G.gen_names(rng, n)  # plain / disorder / odd / nested (one name contained in another)
     wf = rng.choice(["small", "mid", "rat"])
     bs = []
     for _ in range(rng.randint(1, 7)):
